@@ -714,6 +714,15 @@ def run(ctx: Ctx):
                 return False
             f = mm.functions[name]
             rets = [(i_, st) for i_, st, c in statement_order(f) if isinstance(st, ast.Return)]
+            # a generator function: the stream it produces is all-validated when every `yield` hands out a validated
+            # document (`yield from` an all-validated list) and nothing is returned
+            ys = [(i_, n_) for i_, st, c in statement_order(f)
+                  if not isinstance(st, (ast.For, ast.If, ast.Try, ast.With, ast.While))
+                  for n_ in ast.walk(st) if isinstance(n_, (ast.Yield, ast.YieldFrom))]
+            if ys:
+                return all(st.value is None for _, st in rets) and all(
+                    n_.value is not None and (list_ok(n_.value, f, i_, seen + (name,)) if isinstance(n_, ast.YieldFrom)
+                                              else elem_ok(n_.value, f, i_, seen + (name,))) for i_, n_ in ys)
             return bool(rets) and all(st.value is not None and list_ok(st.value, f, i_, seen + (name,)) for i_, st in rets)
 
         cfn = create[4]
